@@ -161,6 +161,19 @@ def run(ctx):
     for r in recs:
         dump, differ = lexdump(ctx, r.dir)
         ctx.add_obligation("R: gocc's pattern for every string-literal token of %s is the literal's characters" % r.name, not differ, str(differ[:3]))
+        # Front/LexAst.v: the lexical part computed by the MODEL of the front end (scanner, definitions, pattern parser, literal decoding,
+        # terminal numbering) from the BYTES of the grammar file must be the AST gocc parsed (before the string-literal rebuild above):
+        # with it the lexer-generator model is compared with gocc from the file to the DFA
+        raw = subprocess.run([ctx.verifdump, "lexdump", os.path.join(r.dir, "g.bnf")], capture_output=True, text=True, timeout=120).stdout
+        la = subprocess.run([ctx.modelrun, "lexast", os.path.join(r.dir, "g.bnf")], capture_output=True, text=True, timeout=120).stdout
+        same = bool(la.strip()) and la.strip() != "NONE" and raw.startswith(la)
+        if not same:
+            rl, ll = raw.split("\n"), la.split("\n")
+            k = next((i for i in range(min(len(rl), len(ll))) if rl[i] != ll[i]), min(len(rl), len(ll)))
+            same_msg = "line %d: gocc %r, model %r" % (k, (rl[k] if k < len(rl) else "")[:120], (ll[k] if k < len(ll) else "")[:120])
+        else:
+            same_msg = ""
+        ctx.add_obligation("K: Front/LexAst.v on the bytes of %s's grammar file = the lexical part as gocc parsed it" % r.name, same, same_msg)
         verdict = bisim(ctx, dump, r.table) if dump else "NO-LEXDUMP"
         ok = verdict.startswith("CLOSED") and "check=true" in verdict and "emitted_equals_itemsets=true" in verdict
         ctx.add_obligation("R: bisim_check(emitted DFA of %s, lexical rules) = true (extracted verified checker)" % r.name, ok, verdict[:300])
